@@ -7,7 +7,10 @@
 //!   * anything else (another wrong answer, a panic that is not recorded) -> class `-`: a VIOLATION.
 use crate::report::*;
 use geo::algorithm::line_measures::{Distance, Euclidean};
-use geo::{wkt, Area, BooleanOps, Centroid, Relate};
+use geo::{wkt, Area, BooleanOps, Centroid, ClosestPoint, Contains, InteriorPoint, Intersects, MapCoords, Relate, StitchTriangles, TriangulateEarcut};
+use geo::algorithm::line_intersection::{line_intersection, LineIntersection};
+use geo::algorithm::line_measures::{Bearing, Destination};
+use geo::algorithm::triangulate_delaunay::{DelaunayTriangulationConfig, TriangulateDelaunay};
 use serde_json::json;
 
 pub struct W {
@@ -141,6 +144,224 @@ pub const ALL: &[W] = &[
             } else {
                 format!("{:e}", d)
             }
+        },
+    },
+    W {
+        pid: "C05",
+        finding: "signed_area_sign_within_rounding",
+        name: "thin_clockwise_quad_has_positive_signed_area",
+        input: "POLYGON((0 0,441273434 288619855,331839821 217043569,282022999 184460316,0 0)) (exact twice-area -4: clockwise)",
+        expected: "negative",
+        recorded_wrong: &["4e0"],
+        run: || {
+            let a = wkt!(POLYGON((0. 0.,441273434. 288619855.,331839821. 217043569.,282022999. 184460316.,0. 0.)));
+            let v = a.signed_area();
+            if v < 0.0 { "negative".into() } else { format!("{:e}", v) }
+        },
+    },
+    W {
+        pid: "C10",
+        finding: "stitch_non_conforming_triangulation",
+        name: "stitch_of_earcut_triangles_with_t_junction",
+        input: "POLYGON((3 1,5 0,7 6,3 1),(4 1,5 1,5 2,4 1)).earcut_triangles().stitch_triangulation()",
+        expected: "area 6.5",
+        recorded_wrong: &["area 13.0"],
+        run: || {
+            let a = wkt!(POLYGON((3. 1.,5. 0.,7. 6.,3. 1.),(4. 1.,5. 1.,5. 2.,4. 1.)));
+            match a.earcut_triangles().stitch_triangulation() {
+                Ok(mp) => format!("area {:.1}", mp.unsigned_area()),
+                Err(e) => format!("error {e:?}"),
+            }
+        },
+    },
+    W {
+        pid: "C10",
+        finding: "constrained_triangulation_far_offset_face_selection",
+        name: "constrained_triangulation_of_triangle_at_2_pow_50",
+        input: "POLYGON((5 3,1 2,2 2,5 3)) translated by (2^50, 2^50): constrained_triangulation",
+        expected: "1 triangle(s)",
+        recorded_wrong: &["0 triangle(s)"],
+        run: || {
+            let o = 1125899906842624.0;
+            let a = geo::Polygon::new(geo::LineString::from(vec![(5.0 + o, 3.0 + o), (1.0 + o, 2.0 + o), (2.0 + o, 2.0 + o), (5.0 + o, 3.0 + o)]), vec![]);
+            match a.constrained_triangulation(DelaunayTriangulationConfig::default()) {
+                Ok(t) => format!("{} triangle(s)", t.len()),
+                Err(e) => format!("error {e:?}"),
+            }
+        },
+    },
+    W {
+        pid: "C02",
+        finding: "rect_contains_thin_polygon_depends_on_ring_start",
+        name: "rect_contains_sliver_started_at_1_1",
+        input: "RECT(0 0,1 1).contains(POLYGON((1 1,0 0,1e-17 0,1 1))) (the same ring started at (0 0) answers true)",
+        expected: "true",
+        recorded_wrong: &["false"],
+        run: || {
+            let r = geo::Rect::new((0.0, 0.0), (1.0, 1.0));
+            let a = geo::Polygon::new(geo::LineString::from(vec![(1.0, 1.0), (0.0, 0.0), (1e-17, 0.0), (1.0, 1.0)]), vec![]);
+            format!("{}", r.contains(&a))
+        },
+    },
+    W {
+        pid: "C07",
+        finding: "distance_point_on_line_not_zero",
+        name: "point_on_line_with_decimal_coordinates",
+        input: "LINE(21.7 30.1,148.9 -54.7) to POINT(37.6 19.5) (intersects is true)",
+        expected: "0e0 and intersects",
+        recorded_wrong: &["1.48"],
+        run: || {
+            let l = geo::Line::new(geo::coord! {x: 21.7, y: 30.1}, geo::coord! {x: 148.9, y: -54.7});
+            let p = geo::Point::new(37.6, 19.5);
+            if !l.intersects(&p) {
+                return "the point is not on the line (witness no longer applies)".into();
+            }
+            let d = Euclidean.distance(&p, &l);
+            if d == 0.0 { "0e0 and intersects".into() } else { format!("{:e}", d) }
+        },
+    },
+    W {
+        pid: "C11",
+        finding: "line_intersection_ill_conditioned_location",
+        name: "nearly_parallel_tenths",
+        input: "LINE(-0.2 -0.5,0.5 0.2) x LINE(1.0 0.7,-0.4 -0.7) (proper crossing near (0.3 0.0) as doubles)",
+        expected: "proper point within 1e-6 of (0.3 0)",
+        recorded_wrong: &["proper point 7.07"],
+        run: || {
+            let p: geo::Line<f64> = geo::Line::new(geo::coord! {x: -0.2, y: -0.5}, geo::coord! {x: 0.5, y: 0.2});
+            let q = geo::Line::new(geo::coord! {x: 1.0, y: 0.7}, geo::coord! {x: -0.4, y: -0.7});
+            match line_intersection(p, q) {
+                Some(LineIntersection::SinglePoint { intersection: c, is_proper: true }) => {
+                    let d = (c.x - 0.3).hypot(c.y);
+                    if d < 1e-6 { "proper point within 1e-6 of (0.3 0)".into() } else { format!("proper point {:.2e} away", d) }
+                }
+                other => format!("{:?}", other),
+            }
+        },
+    },
+    W {
+        pid: "C11",
+        finding: "line_intersection_ill_conditioned_location",
+        name: "well_conditioned_crossing_at_1e110",
+        input: "LINE(-2m -m,2m m) x LINE(-m 3m,2m -3m), m = 1e110 (crossing (0.4m 0.2m))",
+        expected: "proper point at (0.4m 0.2m)",
+        recorded_wrong: &["proper point at (2.000m 1.000m)"],
+        run: || {
+            let m = 1e110f64;
+            let p: geo::Line<f64> = geo::Line::new(geo::coord! {x: -2.0 * m, y: -m}, geo::coord! {x: 2.0 * m, y: m});
+            let q = geo::Line::new(geo::coord! {x: -m, y: 3.0 * m}, geo::coord! {x: 2.0 * m, y: -3.0 * m});
+            match line_intersection(p, q) {
+                Some(LineIntersection::SinglePoint { intersection: c, is_proper: true }) => {
+                    if ((c.x / m) - 0.4).abs() < 1e-9 && ((c.y / m) - 0.2).abs() < 1e-9 { "proper point at (0.4m 0.2m)".into() } else { format!("proper point at ({:.3}m {:.3}m)", c.x / m, c.y / m) }
+                }
+                other => format!("{:?}", other),
+            }
+        },
+    },
+    W {
+        pid: "C12",
+        finding: "interior_point_thin_triangle_off_geometry",
+        name: "triangle_interior_point_is_its_rounded_centroid",
+        input: "TRIANGLE(0.1 0.1,0.5 0.3,0.3 0.2).interior_point()",
+        expected: "intersects the triangle",
+        recorded_wrong: &["does not intersect"],
+        run: || {
+            let t = geo::Triangle::new(geo::coord! {x: 0.1, y: 0.1}, geo::coord! {x: 0.5, y: 0.3}, geo::coord! {x: 0.3, y: 0.2});
+            let p = t.interior_point();
+            if t.intersects(&p) { "intersects the triangle".into() } else { format!("does not intersect: {:?}", p) }
+        },
+    },
+    W {
+        pid: "C13",
+        finding: "relate_changes_under_exact_map_outside_relate_domain",
+        name: "non_simple_multilinestring_reflected",
+        input: "MULTILINESTRING((1 3,0 0),(4 0,0 1)) x LINESTRING(1 3,0 0), and both mapped by y -> 6 - y",
+        expected: "same matrix in both frames",
+        recorded_wrong: &["1F1F00FF2 vs 0F1F001F2"],
+        run: || {
+            let a = wkt!(MULTILINESTRING((1. 3.,0. 0.),(4. 0.,0. 1.)));
+            let b = wkt!(LINESTRING(1. 3.,0. 0.));
+            let f = |c: geo::Coord<f64>| geo::Coord { x: c.x, y: 6.0 - c.y };
+            let (m1, m2) = (im(a.relate(&b)), im(a.map_coords(f).relate(&b.map_coords(f))));
+            if m1 == m2 { "same matrix in both frames".into() } else { format!("{m1} vs {m2}") }
+        },
+    },
+    W {
+        pid: "C13",
+        finding: "affine_inverse_of_integer_transform",
+        name: "i32_scale_2_inverse",
+        input: "AffineTransform::<i32>::scale(2, 2, (0,0)).inverse()",
+        expected: "None, or a transform mapping (8 12) to (4 6)",
+        recorded_wrong: &["Some(transform mapping (8 12) to (0 0))"],
+        run: || {
+            let t = geo::AffineTransform::<i32>::scale(2, 2, geo::coord! {x: 0, y: 0});
+            match t.inverse() {
+                None => "None, or a transform mapping (8 12) to (4 6)".into(),
+                Some(i) => {
+                    let c = i.apply(geo::coord! {x: 8, y: 12});
+                    if c == (geo::coord! {x: 4, y: 6}) { "None, or a transform mapping (8 12) to (4 6)".into() } else { format!("Some(transform mapping (8 12) to ({} {}))", c.x, c.y) }
+                }
+            }
+        },
+    },
+    W {
+        pid: "C19",
+        finding: "triangle_map_coords_reorders_vertices",
+        name: "triangle_reflected",
+        input: "TRIANGLE(0 0,4 0,0 3).map_coords(|(x,y)| (-x,y))",
+        expected: "(0 0) (-4 0) (0 3)",
+        recorded_wrong: &["(0 3) (-4 0) (0 0)"],
+        run: || {
+            let t = geo::Triangle::new(geo::coord! {x: 0.0, y: 0.0}, geo::coord! {x: 4.0, y: 0.0}, geo::coord! {x: 0.0, y: 3.0});
+            let m = t.map_coords(|c| geo::Coord { x: -c.x, y: c.y });
+            let f = |c: geo::Coord<f64>| format!("({} {})", c.x + 0.0, c.y + 0.0);
+            format!("{} {} {}", f(m.0), f(m.1), f(m.2))
+        },
+    },
+    W {
+        pid: "C20",
+        finding: "sweep_intersections_depend_on_heap_addresses",
+        name: "sweep_intersections_64_calls",
+        input: "geo::sweep::Intersections over [LINE(3 3,1 0),LINE(1 2,3 3),LINE(1 3,3 1),LINE(2 3,1 1)], 64 calls with unrelated allocations in between",
+        expected: "one outcome",
+        recorded_wrong: &["different outcomes"],
+        run: || {
+            use geo::algorithm::sweep::Intersections;
+            let lines = vec![
+                geo::Line::new(geo::coord! {x: 3.0, y: 3.0}, geo::coord! {x: 1.0, y: 0.0}),
+                geo::Line::new(geo::coord! {x: 1.0, y: 2.0}, geo::coord! {x: 3.0, y: 3.0}),
+                geo::Line::new(geo::coord! {x: 1.0, y: 3.0}, geo::coord! {x: 3.0, y: 1.0}),
+                geo::Line::new(geo::coord! {x: 2.0, y: 3.0}, geo::coord! {x: 1.0, y: 1.0}),
+            ];
+            let mut seen = std::collections::BTreeSet::new();
+            let mut junk: Vec<Vec<u8>> = vec![];
+            for i in 0..64usize {
+                junk.push(vec![0u8; 8 + (i * 37) % 200]);
+                if i % 3 == 0 {
+                    junk.swap_remove(0);
+                }
+                let out = call(|| Intersections::from_iter(lines.iter().cloned()).take(64).map(|(a, b, x)| format!("{:?}{:?}{:?}", a, b, x)).collect::<Vec<_>>().join(";"));
+                seen.insert(match out {
+                    Ok(s) => s,
+                    Err(p) => format!("panic: {}", p.chars().take(40).collect::<String>()),
+                });
+            }
+            if seen.len() == 1 { "one outcome".into() } else { format!("different outcomes: {}", seen.len()) }
+        },
+    },
+    W {
+        pid: "C16",
+        finding: "rhumb_nearly_east_west_ill_conditioned",
+        name: "rhumb_round_trip_nearly_east_west",
+        input: "Rhumb: a = (0 50), b = (170 50.00000001): destination(a, bearing(a,b), distance(a,b))",
+        expected: "within 1 mm of b",
+        recorded_wrong: &["2"],
+        run: || {
+            use geo::Rhumb;
+            let (a, b) = (geo::Point::new(0.0, 50.0), geo::Point::new(170.0, 50.00000001));
+            let d = Rhumb.destination(a, Rhumb.bearing(a, b), Rhumb.distance(a, b));
+            let miss = Rhumb.distance(d, b);
+            if miss < 1e-3 { "within 1 mm of b".into() } else { format!("{:.1} m from b", miss) }
         },
     },
 ];
